@@ -117,9 +117,9 @@ theorem obs_paths_below : ∀ (n : Node) (p : Path), ∀ r ∈ obs p n, ∃ q, r
     · exact ⟨[], by simp [Node.core]⟩
     · obtain ⟨l, q, e⟩ := ih (p ++ [c.label]) r hr
       exact ⟨[l] ++ q, by simp [e, Node.core]⟩
-  | nil => intro p r hr; simp [obsL] at hr
+  | nil => rename_i p r hr; simp [obsL] at hr
   | cons n ns ihn ihns =>
-    intro p r hr
+    rename_i p r hr
     simp only [obsL, List.mem_append] at hr
     rcases hr with hr | hr
     · obtain ⟨q, e⟩ := ihn p r hr
